@@ -46,6 +46,20 @@ admissible readings (refused, as the code does - C09_link_path_kept - or followe
 cache path was modified.  C09_non_cache_path_kept: behind any guard that implies the marker every other existing path
 stays and the call raises; C09_name_guard_deletes / _refuted: a guard that goes by the names of the entries deletes
 every marker-less directory whose entries are all called patch_... (the empty one included).
+
+COLUMNS OF UNEQUAL LENGTH are a family of inputs, not one: which column is the odd one (right ascension, declination,
+weight, redshift, patch id), whether it is longer or shorter, by one entry / by a chunk / by many, and how the record
+count len(ra) relates to the chunk size (an exact multiple, equal to it - the whole input in one chunk -, not a
+multiple).  Which sources can hold such columns: the datasets of an HDF5 file are independent arrays (every cell of
+the family is generated, sequentially and in parallel, on a fresh path and over existing ones); a pandas data frame,
+a FITS table HDU and a Parquet file have one row count by construction (nothing to generate); the frame double hands
+DataChunk.create slices of unequal length inside one chunk (column x longer / shorter x by one / down to nothing /
+by a chunk x chunk position).  The scenario is derived INSIDE Coq from the lengths (Model/FailStop.v: slice_len,
+slices_of, first_bad, colsource, cols_scen, c09_case_cols): the up-front comparison of the dataset lengths makes
+every unequal file an early failure (C09_unequal_columns_raise_up_front); a reader that leaves it to the per-chunk
+comparison lets through exactly the columns that are longer than ra while len(ra) is a multiple of the chunk size
+(C09_chunk_check_misses_iff, _only_truncates, _catches) and then returns a catalog (C09_chunk_check_alone_returns,
+_refuted).  Expected of every such case, per the statement: raises, the path is what it was, nothing opens afterwards.
 """
 import json
 import os
@@ -97,7 +111,7 @@ ASSUMPTIONS = [
     "have been written in reality; only the absence of patch_ids.bin is compared)",
 ]
 RULE = ("cases = (source, n, chunksize, workers, patch mode, fault kind, fault column, chunk position, pre-existing state of "
-        "the cache path, overwrite, empty centre, call options: progress display, degrees / radians, chunk size passed / "
+        "the cache path, overwrite, empty centre, the lengths of the columns (which one differs, by how much, in which chunk), call options: progress display, degrees / radians, chunk size passed / "
         "omitted / larger than the input, probe size); distinct by that tuple; non-trivial when a fault is present, the path "
         "pre-exists / is unusable, the run is parallel, or an option differs from its default (anything but a plain "
         "sequential creation with default options)")
@@ -154,6 +168,51 @@ CS1_SHAPES = [(7, 1), (5, 1), (9, 1)]                # one record per chunk (par
 ONE_SHAPES = [(7, 7), (12, 12), (9, 9)]              # the whole input is one chunk: first = middle = last
 TAIL_SHAPES = [(14, 13), (9, 8), (11, 5)]            # the last chunk holds a single record
 RND = dict(source="random", weights=False, redshifts=False, ncent=2)
+# columns of unequal length: len(ra) an exact multiple of the chunk size / equal to it / not a multiple
+RAGGED_SHAPES = {"multiple": [(12, 4), (15, 5), (9, 3), (16, 4), (20, 5), (10, 5)],
+                 "equal": [(7, 7), (12, 12), (9, 9)],
+                 "partial": [(14, 5), (17, 4), (23, 5), (7, 3), (11, 5)]}
+RAGGED_COLS = ["ra", "dec", "w", "z", "pid"]
+RAGGED_BYS = ["one", "chunk", "many"]
+
+
+def divisibility(n, cs):
+    return "n<cs" if cs > n else "n=cs" if cs == n else "n=k*cs" if n % cs == 0 else "n%cs>0"
+
+
+def draw_unequal(rng, source, shp, chunk, columns, col=None, direction=None, by=None):
+    """one member of the family 'columns of unequal length': fault dict.  `columns` = the columns the source holds.
+    hdf5: the whole dataset `col` is longer / shorter than the others (col = ra: every other dataset is shorter /
+    longer than the right ascension, whose length stays n); frame: the slice of `col` in chunk `chunk`."""
+    n, cs = shp
+    col = col or rng.choice(columns)
+    assert col in columns, (col, columns)
+    direction = direction or rng.choice(["longer", "shorter"])
+    by = by or rng.choice(RAGGED_BYS)
+    if source == "hdf5":
+        if direction == "longer":
+            d = {"one": 1, "chunk": cs, "many": rng.choice([2 * cs + 1, n + 3, 3 * cs + 2])}[by]
+        else:       # down to an empty dataset at most
+            d = {"one": 1, "chunk": min(cs, n), "many": rng.randint(min(cs + 1, n), n)}[by]
+        sign = 1 if direction == "longer" else -1
+        if col == "ra":      # len(ra) stays n: the OTHER datasets are all shorter / longer
+            sign, d = -sign, (min(d, n) if direction == "longer" else d)
+            deltas = {c: sign * d for c in columns if c != "ra"}
+        else:
+            deltas = {col: sign * d}
+    else:
+        m = min(cs, n - chunk * cs)          # rows of that chunk
+        if direction == "longer":
+            d = {"one": 1, "chunk": cs, "many": rng.choice([2 * cs + 1, n + 3])}[by]
+        else:       # down to an empty slice at most
+            d = -{"one": 1, "chunk": m, "many": max(1, m - 1) if m > 2 else m}[by]
+        deltas = {col: d}
+    return dict(kind="unequal", chunk=chunk, col=col, deltas=deltas,
+                shape=dict(col=col, dir=direction, by=by, div=divisibility(n, cs)))
+
+
+def columns_of(patch, weights=True, redshifts=True):
+    return ["ra", "dec"] + (["w"] if weights else []) + (["z"] if redshifts else []) + (["pid"] if patch == "name" else [])
 
 
 def nchunks(spec):
@@ -187,8 +246,8 @@ def specs(ctx):
             kw = dict(shape=shp, workers=workers, fault=dict(kind=k, chunk=chunk, col=col),
                       patch=rng.choice(["centers", "name"]))
         elif kind == "unequal":
-            kw = dict(shape=shp, workers=workers, source="frame", fault=dict(kind="unequal", chunk=chunk, col=rng.choice(["w", "z", "dec"])),
-                      patch=rng.choice(["centers", "name"]))
+            kw = unequal_kw(shp, chunk, more.get("patch"))
+            kw.update(workers=workers)
         elif kind == "genfail":     # from_random: the generator cannot deliver its draw number `chunk`
             kw = dict(RND, shape=shp, workers=workers, fault=dict(kind="genfail", chunk=chunk, col="ra"))
         elif kind == "worker":
@@ -198,6 +257,64 @@ def specs(ctx):
             kw = dict(shape=shp, workers=workers, patch="name", fault=dict(kind=kind, chunk=chunk, col="pid"))
         kw.update(more)
         return add(**kw)
+
+    def unequal_kw(shp, chunk, patch=None, source=None, **cell):
+        """a member of the family 'columns of unequal length' (drawn at random where the caller does not say): the
+        frame double (slices of one chunk) or an HDF5 file (whole datasets)"""
+        source = source or rng.choice(["frame", "frame", "hdf5"])
+        patch = patch or ("name" if cell.get("col") == "pid" else rng.choice(["centers", "name"]))
+        return dict(shape=shp, source=source, patch=patch,
+                    fault=draw_unequal(rng, source, shp, chunk if source == "frame" else 0, columns_of(patch), **cell))
+
+    def ragged_block(workers_list, full):
+        """columns of unequal length: which column x longer / shorter x by one / a chunk / many x len(ra) a multiple of
+        the chunk size / equal to it / not a multiple x sequential / parallel.  HDF5 (independent datasets): every
+        (column, direction, divisibility) cell once per run on a fresh path (quick: size and mode rotate; `full`: once
+        per worker count, the size rotating with it); frame double (slices of one chunk): column x direction, position
+        and size rotating.  Further members meet an existing path / the progress display / the first-pass patch mode."""
+        par_ws = [w for w in workers_list if w > 1]
+        k, m, pi = rng.randrange(3), rng.randrange(2), rng.randrange(3)
+        for col in RAGGED_COLS:
+            for direction in ("longer", "shorter"):
+                for div in ("multiple", "equal", "partial"):
+                    modes = workers_list if full else [(1, rng.choice(par_ws))[m % 2]]
+                    m += 1
+                    for workers in modes:
+                        shp = rng.choice(RAGGED_SHAPES[div])
+                        kw = unequal_kw(shp, 0, source="hdf5", col=col, direction=direction, by=RAGGED_BYS[k % 3])
+                        k += 1
+                        if full and col != "pid" and rng.random() < 0.12:
+                            kw.update(patch="num", opts=dict(draw_opts(), probe_size=30))
+                        elif rng.random() < (0.3 if full else 0.1):
+                            kw.update(opts=draw_opts())
+                        if full and workers != workers_list[0] and rng.random() < 0.3:
+                            # (the first mode of every cell always runs on a fresh path)
+                            kw.update(pre=rng.choice(OLD_SIZES + ["dir_other", "catalog_foreign"]), overwrite=rng.random() < 0.7)
+                        add(workers=workers, **kw)
+                k += 1
+        # the family over an existing path: a valid catalog that may be overwritten (it has to stay all the same: the
+        # call fails before any writer exists), one that may not, a directory that is no cache
+        for pre, ow in ([(rng.choice(OLD_SIZES), True), (rng.choice(OLD_SIZES + ["catalog_foreign"]), False), ("dir_other", True)]
+                        if full else [(rng.choice(OLD_SIZES), True), (rng.choice(OLD_SIZES + ["dir_other"]), rng.random() < 0.5)]):
+            for workers in (workers_list if full else [workers_list[pi % len(workers_list)]]):
+                div = rng.choice(["multiple", "equal", "partial"])
+                add(workers=workers, pre=pre, overwrite=ow,
+                    **unequal_kw(rng.choice(RAGGED_SHAPES[div]), 0, source="hdf5", direction=rng.choice(["longer", "longer", "shorter"])))
+                pi += 1
+        for j, col in enumerate(RAGGED_COLS):
+            for direction in (("longer", "shorter") if full else [("longer", "shorter")[(j + m) % 2]]):
+                for workers in (workers_list if full else [(1, rng.choice(par_ws))[(j + k) % 2]]):
+                    shp = rng.choice(OVER_SHAPES + TAIL_SHAPES)
+                    nch = -(-shp[0] // shp[1])
+                    chunk = {"first": 0, "middle": nch // 2, "last": nch - 1}[positions[pi % 3]]
+                    pi += 1
+                    add(workers=workers, **unequal_kw(shp, chunk, source="frame", col=col, direction=direction, by=RAGGED_BYS[k % 3]))
+                    k += 1
+        # nothing wrong: datasets of equal length hold exactly the input, whatever len(ra) is to the chunk size
+        for div in ("multiple", "equal", "partial"):
+            add(workers=workers_list[pi % len(workers_list)], source="hdf5", shape=rng.choice(RAGGED_SHAPES[div]),
+                patch=rng.choice(["centers", "name"]))
+            pi += 1
 
     def draw_opts(progress=None, cs_pass="same"):
         """call options: the progress display as asked (or a coin), the unit of the coordinates at random"""
@@ -358,8 +475,8 @@ def specs(ctx):
             kk, col = rng.choice(VALUE_FAULTS)
             add(fault=dict(kind=kk, chunk=chunk, col=col), patch=rng.choice(["centers", "name"]), **kw)
         elif kind == "unequal":
-            add(source="frame", fault=dict(kind="unequal", chunk=chunk, col=rng.choice(["w", "z", "dec"])),
-                patch=rng.choice(["centers", "name"]), **kw)
+            kw.pop("shape")
+            add(**dict(kw, **unequal_kw(shp, chunk)))
         elif kind == "id":
             add(patch="name", fault=dict(kind=rng.choice(["idneg", "idbig", "idwrap", "idedge"]), chunk=chunk, col="pid"), **kw)
         elif kind == "worker":
@@ -460,6 +577,7 @@ def specs(ctx):
         options_block([1, par()], full=False)
         table_block([1, par()], full=False)
         path_block([1, par()], full=False)
+        ragged_block([1, par()], full=False)
         return out
     # ---- thorough: the full grid
     for workers in (1, 2, 3):
@@ -494,7 +612,7 @@ def specs(ctx):
         add(workers=workers, pre="catalog_other", overwrite=False, fault=dict(kind="nan", chunk=1, col="w"))
         add(workers=workers, pre="noparent", fault=dict(kind="inf", chunk=2, col="z"))
         # other sources
-        add(workers=workers, source="hdf5", fault=dict(kind="unequal", chunk=0, col="w"))
+        add(workers=workers, **unequal_kw(shape(), 0, source="hdf5"))
         add(workers=workers, source="hdf5", fault=dict(kind="missing", chunk=0, col="z"))
         add(workers=workers, source="hdf5", fault=dict(kind="nan", chunk=1, col="dec"))
         add(workers=workers, source="hdf5")
@@ -526,6 +644,7 @@ def specs(ctx):
     options_block([1, 2, 3], full=True)
     table_block([1, 2, 3], full=True)
     path_block([1, 2, 3], full=True)
+    ragged_block([1, 2, 3], full=True)
     return out
 
 
@@ -572,6 +691,36 @@ def scen_term(spec):
     # the abstract pre-state is derived from the concrete path inside c09_case_path (TAbsent here is a placeholder)
     return "(mk_scen %s %s TAbsent %s %s %s) %s" % (fq.nat(nchunks(spec)), ft, fq.b(spec["overwrite"]), fq.b(early),
                                                   fq.b(spec["empty_centre"] or bool(spec.get("kmeans_empty"))), pre)
+
+
+def cols_source_term(spec):
+    """fault kind 'unequal': the source of columns as the model sees it (Model/FailStop.v, colsource) - the lengths of
+    the independent datasets behind the up-front comparison, or the slices the per-chunk comparison gets to see"""
+    if spec["source"] == "hdf5":
+        return "(SrcUpFront %s %s)" % (fq.nlist(drv.column_lengths(spec)), fq.nat(spec["cs"]))
+    assert spec["source"] == "frame", spec
+    return "(SrcPerChunk %s %s)" % (fq.lst(fq.nlist(r) for r in drv.chunk_slice_lengths(spec)), fq.b(spec["patch"] == "num"))
+
+
+def case_term(spec, par, ob, untouched, opens, held, around):
+    """the checker term of one observed run.  Columns of unequal length: the scenario (early failure / reader fault at
+    the first chunk whose slices differ / none) is derived inside Coq from the lengths (cols_scen)"""
+    tail = "%s %s %s %s %s %s" % (drv.path_term(spec), ob, fq.b(untouched), fq.b(opens), held, fq.b(around))
+    if spec["fault"]["kind"] == "unequal":
+        return "c09_case_cols %s %s %s %s %s %s" % (
+            fq.b(par), cols_source_term(spec), fq.b(spec["overwrite"]), fq.b(spec["patch"] == "none"),
+            fq.b(spec["empty_centre"] or bool(spec.get("kmeans_empty"))), tail)
+    return "c09_case_path %s %s %s %s %s %s %s" % (fq.b(par), scen_term(spec), ob, fq.b(untouched), fq.b(opens), held, fq.b(around))
+
+
+def unequal_label(spec):
+    """structural label of a member of the family 'columns of unequal length'"""
+    f = spec["fault"]
+    d = drv.unequal_deltas(spec)
+    sh = f.get("shape") or dict(col=f["col"], dir="longer" if d[f["col"]] > 0 else "shorter", div=divisibility(spec["n"], spec["cs"]))
+    if spec["source"] == "hdf5":
+        return "unequal[%s-%s,%s]" % (sh["col"], sh["dir"], divisibility(spec["n"], spec["cs"]))
+    return "unequal[%s-%s]" % (sh["col"], sh["dir"])
 
 
 # ----------------------------------------------------------------------------- running one case
@@ -823,9 +972,10 @@ def signatures(spec, code, obs_kind, held="HClosed", held_how=""):
         pos = "@first" if ch == 0 else "@last" if ch == nch - 1 else "@middle"
     nd = nondefault_opts(spec)
     osfx = "" if not nd else "/with:" + "+".join(nd)       # the call options are part of the failing call shape
-    fshape = "%s%s/%s%s" % (spec["fault"]["kind"], pos, spec["pre"], osfx)
+    klabel = unequal_label(spec) if spec["fault"]["kind"] == "unequal" else spec["fault"]["kind"]
+    fshape = "%s%s/%s%s" % (klabel, pos, spec["pre"], osfx)
     if spec["fault"]["kind"] != "none":
-        shape = spec["fault"]["kind"] + (pos if nd else "") + ("/" + spec["source"] if spec["source"] not in ("df", "frame") else "")
+        shape = klabel + (pos if nd else "") + ("/" + spec["source"] if spec["source"] not in ("df", "frame") else "")
     elif spec["empty_centre"]:
         shape = "empty-centre"
     elif spec["patch"] == "none":
@@ -901,6 +1051,13 @@ def describe(spec):
     if f["kind"] == "gentable":
         parts.append("generator tables: " + ", ".join("%s=%s" % ({"w": "weights", "z": "redshifts"}[c], [
             float(x) for x in v]) for c, v in sorted(drv.random_tables(spec).items())))
+    elif f["kind"] == "unequal" and spec["source"] == "hdf5":
+        parts.append("datasets of unequal length: %s" % ", ".join(
+            "%s=%d" % (c, m) for c, m in zip(drv.file_columns(spec), drv.column_lengths(spec))))
+    elif f["kind"] == "unequal":
+        parts.append("column slices of unequal length in chunk %d/%d: %s (rows of %s per chunk: %s)" % (
+            f["chunk"], nchunks(spec), ", ".join("%s %+d" % (c, d) for c, d in sorted(drv.unequal_deltas(spec).items())),
+            "/".join(drv.file_columns(spec)), drv.chunk_slice_lengths(spec)))
     elif f["kind"] != "none":
         parts.append("fault=%s col=%s chunk=%d/%d" % (f["kind"], f["col"], f["chunk"], nchunks(spec)))
     if spec["empty_centre"]:
@@ -970,8 +1127,13 @@ def _run(ctx):
             ob = "OHang"
         par = spec["workers"] > 1
         held, held_how = held_by_path(spec, untouched, opens)
-        terms.append("c09_case_path %s %s %s %s %s %s %s" % (fq.b(par), scen_term(spec), ob, fq.b(untouched), fq.b(opens), held,
-                                                            fq.b(around)))
+        terms.append(case_term(spec, par, ob, untouched, opens, held, around))
+        if spec["fault"]["kind"] == "unequal":
+            sh = spec["fault"].get("shape")
+            if sh:
+                ctx.bump("unequal-columns:%s:%s-%s:%s" % (spec["source"], sh["col"], sh["dir"], sh["div"] if spec["source"] == "hdf5" else "one-chunk"))
+                ctx.bump("unequal-size:%s:%s:by-%s:%s" % (spec["source"], sh["dir"], sh["by"], "par" if par else "seq"))
+            ctx.bump("unequal-outcome:%s:%s" % (spec["source"], res["class"] + ("" if not res.get("exc_type") else ":" + res["exc_type"])))
         if spec["pre"] in PATH_BLOCK_STATES or spec.get("nest"):
             ctx.bump("path-state:%s%s:%s:%s:%s" % (spec["pre"], "+nested" if spec.get("nest") else "", "overwrite" if spec["overwrite"] else "keep",
                                                    "par" if par else "seq", "clean" if spec["fault"]["kind"] == "none" else "fault"))
@@ -1025,7 +1187,8 @@ def _run(ctx):
             continue
         fc, ff = not (c & 64), not (c & 128)
         follows["both" if fc and ff else "cur" if fc else "fix" if ff else "neither"] += 1
-        replay = dict(case=describe(spec), spec={k: v for k, v in spec.items() if k != "cache"}, model_scenario=scen_term(spec),
+        replay = dict(case=describe(spec), spec={k: v for k, v in spec.items() if k != "cache"},
+                      model_scenario=("cols_scen %s" % cols_source_term(spec)) if spec["fault"]["kind"] == "unequal" else scen_term(spec),
                       observed=obs, code=c,
                       rerun="write spec (plus a 'cache' path) to a json file; PYTHONPATH=%s %s %s spec.json out.json" % (REPO_SRC, PY, DRIVER))
         tw = ""
